@@ -39,4 +39,4 @@ ASSUME = ["kernel: read/write/writev/accept/epoll/eventfd results are inputs of 
           "a new descriptor is not one still registered",
           "the peer byte stream equals the concatenation of read(2) results (TCP/Unix stream semantics)",
           "one event loop is modelled; loops share nothing but the engine (C05), so multi-loop runs are independent copies",
-          "poll_opt and gc_opt build variants, kqueue and Windows are not modelled"]
+          "the poll_opt build is covered by the dispatch variant of the model (attachment dispatch) and its own driver runs; gc_opt changes only the registry (C14) and is run against the same model; kqueue and Windows are not modelled; poll_opt stores raw attachment pointers in the kernel (memory safety of that is outside any model)"]
